@@ -94,6 +94,31 @@ type histResult struct {
 	Reached  bool        `json:"reached_seam,omitempty"`
 }
 
+// safeLoad is LoadFilter with a panic turned into a marked error: the child goes on reporting, and the parent checks treat
+// the mark as what it is - a load that neither returned nil nor an error.
+const panicMark = "PANIC-IN-LOADFILTER: "
+
+func safeLoad(f seccomp.Filter) (err error) {
+	defer func() {
+		if r := recover(); r != nil {
+			err = fmt.Errorf("%s%v", panicMark, r)
+		}
+	}()
+	return seccomp.LoadFilter(f)
+}
+
+// loadPanic returns the panic message if one of the results carries the mark.
+func loadPanic(rs []histResult) string {
+	for _, r := range rs {
+		for _, e := range []*string{r.Err, r.Err2} {
+			if e != nil && strings.Contains(*e, panicMark) {
+				return *e
+			}
+		}
+	}
+	return ""
+}
+
 func gettid() int { r, _, _ := syscall.RawSyscall(syscall.SYS_GETTID, 0, 0, 0); return int(r) }
 
 func kindPolicy(kind string) *seccomp.Policy {
@@ -282,7 +307,7 @@ func childHist(args []string) {
 			seams = nil
 			run(op.T, func() {
 				res.Tid = gettid()
-				err := seccomp.LoadFilter(seccomp.Filter{NoNewPrivs: op.NNP, Flag: seccomp.FilterFlag(op.Flags), Policy: *pol})
+				err := safeLoad(seccomp.Filter{NoNewPrivs: op.NNP, Flag: seccomp.FilterFlag(op.Flags), Policy: *pol})
 				if err != nil {
 					s := err.Error()
 					res.Err = &s
@@ -299,7 +324,7 @@ func childHist(args []string) {
 			doneA := make(chan struct{})
 			workers[op.T].ch <- func() {
 				res.Tid = gettid()
-				if err := seccomp.LoadFilter(seccomp.Filter{NoNewPrivs: op.NNP, Flag: seccomp.FilterFlag(op.Flags), Policy: *polA}); err != nil {
+				if err := safeLoad(seccomp.Filter{NoNewPrivs: op.NNP, Flag: seccomp.FilterFlag(op.Flags), Policy: *polA}); err != nil {
 					s := err.Error()
 					res.Err = &s
 				}
@@ -312,7 +337,7 @@ func childHist(args []string) {
 			}
 			run(op.T2, func() {
 				res.Tid2 = gettid()
-				if err := seccomp.LoadFilter(seccomp.Filter{NoNewPrivs: op.NNP2, Flag: seccomp.FilterFlag(op.Flags2), Policy: *polB}); err != nil {
+				if err := safeLoad(seccomp.Filter{NoNewPrivs: op.NNP2, Flag: seccomp.FilterFlag(op.Flags2), Policy: *polB}); err != nil {
 					s := err.Error()
 					res.Err2 = &s
 				}
